@@ -472,6 +472,9 @@ class Interp:
             return self.thaw_global(self.extra_globals[name], st)
         mi = fr.module
         if mi is not None:
+            gk = ("modglobal", mi.name, name)
+            if gk in st.ghost:
+                return st.ghost[gk]  # module global rebound on this path (`global` statement / module attribute assignment)
             try:
                 return self.thaw_global(self.resolve_global(mi, name), st)
             except KeyError:
@@ -1269,7 +1272,7 @@ class Interp:
     def ev_NamedExpr(self, node, st):
         for st1, v in list(self.ev(node.value, st)):
             if not isinstance(v, Exc):
-                st1.frame.vars[node.target.id] = v
+                self.bind_name(st1, node.target.id, v)
             yield st1, v
 
     # comprehensions -----------------------------------------------------------
@@ -1741,7 +1744,43 @@ class Interp:
         yield st, None
 
     def ex_Global(self, node, st):
-        raise Unsupported("global statement")
+        # `global X` inside a function: X is read from / bound in the MODULE namespace.  Rebindings are kept per path
+        # (st.ghost[("modglobal", module, name)]) and are seen by every later read of that module global (lookup,
+        # module attribute access); the declaration itself does nothing at run time.
+        if st.frame.func is None or st.frame.module is None:
+            raise Unsupported("global statement outside a repo function")
+        yield st, None
+
+    def global_decls(self, func):
+        """names declared `global` in the body of func (nested functions / classes excluded) - static, cached"""
+        if func is None or not hasattr(func, "node"):
+            return ()
+        k = id(func.node)
+        c = self._global_decl_cache.get(k) if hasattr(self, "_global_decl_cache") else None
+        if c is None:
+            if not hasattr(self, "_global_decl_cache"):
+                self._global_decl_cache = {}
+            names = set()
+            todo = list(getattr(func.node, "body", [])) if isinstance(getattr(func.node, "body", None), list) else []
+            while todo:
+                n = todo.pop()
+                if isinstance(n, (ast.FunctionDef, ast.AsyncFunctionDef, ast.ClassDef, ast.Lambda)):
+                    continue
+                if isinstance(n, ast.Global):
+                    names.update(n.names)
+                todo.extend(ast.iter_child_nodes(n))
+            c = self._global_decl_cache[k] = (frozenset(names), func.node)  # node kept alive: its id is the key
+        return c[0]
+
+    def bind_name(self, st, name, v):
+        """bind a plain name in the current frame: a local, or (after `global name`) the module global"""
+        fr = st.frame
+        if fr.func is not None and name in self.global_decls(fr.func):
+            if fr.module is None:
+                raise Unsupported("global statement without module")
+            st.ghost[("modglobal", fr.module.name, name)] = v
+        else:
+            fr.vars[name] = v
 
     def ex_Nonlocal(self, node, st):
         raise Unsupported("nonlocal statement")
@@ -1825,7 +1864,7 @@ class Interp:
                     if isinstance(r, Exc):
                         yield st2, ("raise", r.exc)
                     else:
-                        st2.frame.vars[tgt.id] = r
+                        self.bind_name(st2, tgt.id, r)
                         yield st2, None
         elif isinstance(tgt, ast.Attribute):
             for st1, vs in self.ev_many([tgt.value, node.value], st):
@@ -1865,7 +1904,7 @@ class Interp:
     def assign(self, target, v, st):
         """yield (st, None|Exc)"""
         if isinstance(target, ast.Name):
-            st.frame.vars[target.id] = v
+            self.bind_name(st, target.id, v)
             yield st, None
         elif isinstance(target, (ast.Tuple, ast.List)):
             if v is None or isinstance(v, (bool, int, Fraction)) or (is_z3(v) and (z3.is_int(v) or z3.is_real(v) or z3.is_bool(v))):
@@ -1924,6 +1963,8 @@ class Interp:
                 return
             t = node.targets[k]
             if isinstance(t, ast.Name):
+                if t.id in self.global_decls(st1.frame.func):
+                    raise Unsupported("del of a name declared global")
                 st1.frame.vars.pop(t.id, None)
                 yield from do(st1, k + 1)
             elif isinstance(t, ast.Subscript):
